@@ -32,11 +32,14 @@ def run(run_, pkg, tier):
                 tasks.append((key, "C12-T1-chi2-is-graph-chi2", assembly_obligation(scn, chi2_only=True), "%s:%d" % (gfn._gs_module, gfn.lineno)))
     record(run_, tasks, run_tasks(pkg, tasks))
     oa = optim_rules.analyse(pkg)
-    n = optim_rules.report(run_, oa, ["C12-"])
-    run_.floor("C12 rule instances", n, 40)
-    run_.floor("verbose-controlled statements", getattr(oa, "n_verbose", 0), 1)
-    run_.floor("abstract exit states of optimize (converged exit, iteration limit)",
-               len({(n, s.phase) for n in oa.return_nodes for s in oa.states_at(n)}), 2)
-    run_.extra["exposed_self_reads"] = oa.exposed_reads
-    run_.extra["roles"] = {str(k): [v[0], getattr(v[1], "lineno", None)] for k, v in sorted(oa.role.items())}
-    run_.samples.append(dict(node_roles=run_.extra["roles"], abstract_states_at_loop_header=[s._asdict() for s in list(oa.states_at(oa.main_header))[:3]]))
+    n = optim_rules.optimize_verdicts(run_, pkg, "C12", lambda f: (f.key, f.rule) if f.rule.startswith("C12-") else None)
+    sem_ok = bool(oa.semantic) and all(x["status"] == "ok" for x in oa.semantic)
+    run_.floor("C12 rule instances", n, 40 if not (oa.failed or sem_ok) else 10)
+    if not oa.failed and not sem_ok:
+        run_.floor("verbose-controlled statements", getattr(oa, "n_verbose", 0), 1)
+        run_.floor("abstract exit states of optimize (converged exit, iteration limit)",
+                   len({(n, s.phase) for n in oa.return_nodes for s in oa.states_at(n)}), 2)
+    if not oa.failed:
+        run_.extra["exposed_self_reads"] = oa.exposed_reads
+        run_.extra["roles"] = {str(k): [v[0], getattr(v[1], "lineno", None)] for k, v in sorted(oa.role.items())}
+        run_.samples.append(dict(node_roles=run_.extra["roles"], abstract_states_at_loop_header=[s._asdict() for s in list(oa.states_at(oa.main_header))[:3]]))
